@@ -309,6 +309,11 @@ impl ClientModel {
 
     pub fn request_connection(&self, app: &str, ok: bool, outs: &[COut]) -> Result<ClientModel, (&'static str, String)> {
         if self.st == CSt::Disconnected {
+            if !ok && self.pending.values().any(|p| matches!(p, Pend::Connect { .. })) {
+                // a connect is already waiting for its answer: refusing a second one is a
+                // reading of "connect when disconnected" the statement allows
+                return self.refused("request_connection", ok, outs);
+            }
             if !ok {
                 return Err(("connect-refused", "request_connection returned Err while disconnected".to_string()));
             }
@@ -339,6 +344,10 @@ impl ClientModel {
     pub fn request_stream(&self, play: bool, key: &str, kind: &str, ok: bool, outs: &[COut]) -> Result<ClientModel, (&'static str, String)> {
         let what = if play { "request_playback" } else { "request_publishing" };
         if self.st == CSt::Connected {
+            if !ok && self.pending.values().any(|p| matches!(p, Pend::Play { .. } | Pend::Publish { .. })) {
+                // a createStream is outstanding: the session may count itself as not idle
+                return self.refused(what, ok, outs);
+            }
             if !ok {
                 return Err(("request-refused", format!("{} returned Err while connected and idle", what)));
             }
